@@ -704,8 +704,11 @@ class FoldDef:
         self.F, self.params, self.body = F, params, body
 
     def unfold(self, app):
+        return app == self.rhs(app)
+
+    def rhs(self, app):
         subst = [(p, app.arg(i)) for i, p in enumerate(self.params)]
-        return app == z3.substitute(self.body, *subst)
+        return z3.substitute(self.body, *subst)
 
 
 def spec_fold(ex, reg, st, e: ast.Call, which):
